@@ -70,7 +70,7 @@ def norm_axes(a):
     return list(a)
 
 
-def g_op(op):
+def g_op(op, done=()):
     k = op["op"]
     if k == "set":
         c = op["c"]
@@ -93,10 +93,11 @@ def g_op(op):
     if k == "squeeze":
         return f"(Squeeze {gopt(op.get('axes'), g_zs)} {gbool(op['inplace'])})"
     if k == "transpose":
-        return f"(Transpose {gopt(op.get('axes'), g_zs)} {gbool(op['constructs'])} {gbool(op['inplace'])})"
+        return (f"(Transpose {gopt(op.get('axes'), g_zs)} {gbool(op['constructs'])} {gbool(op['inplace'])} "
+                f"{g_keys(list(done))})")
     if k == "insert_dimension":
         return (f"(InsertDimension {gopt(op.get('axis'), gkey)} {gz(op['position'])} "
-                f"{gbool(op['constructs'])} {gbool(op['inplace'])})")
+                f"{gbool(op['constructs'])} {gbool(op['inplace'])} {g_keys(list(done))})")
     if k == "convert":
         return f"(Convert {gkey(op['key'])} {gbool(op['full_domain'])})"
     raise ValueError(k)
@@ -109,14 +110,36 @@ def g_state(st):
     return f"({cons}, {ctys}, {cax}, {gopt(st['fshape'], g_zs)}, {gopt(st['faxes'], g_keys)})"
 
 
-def g_step(s):
+def changed_keys(before, after):
+    """Keys of the constructs whose payload or data axes differ between two
+    observed states: what a loop over the metadata constructs that was left by
+    an exception had already dealt with (the model's [done] argument)."""
+    if before is None or after is None:
+        return []
+    b = {e[1]: e[2] for e in before["cons"]}
+    a = {e[1]: e[2] for e in after["cons"]}
+    bx = {e[0]: e[1] for e in before["caxes"]}
+    ax = {e[0]: e[1] for e in after["caxes"]}
+    return sorted(k for k in a if k in b and (a[k] != b[k] or ax.get(k) != bx.get(k)))
+
+
+def g_step(s, before=None, after=None):
     e = "None" if s["out"] == "ok" else f"(Some {ERR[s['out']]})"
     ob = "Same" if s["state"] == "same" else f"(St {g_state(s['state'])})"
-    return f"({g_op(s['op'])}, {e}, {ob})"
+    done = ()
+    if s["out"] != "ok" and s["op"]["op"] in ("transpose", "insert_dimension") and s["op"].get("constructs"):
+        done = changed_keys(before, after)
+    return f"({g_op(s['op'], done)}, {e}, {ob})"
 
 
 def g_case(steps):
-    return glist(steps, g_step)
+    out = []
+    cur = None
+    for s in steps:
+        nxt = cur if s["state"] == "same" else s["state"]
+        out.append(g_step(s, cur, nxt))
+        cur = nxt
+    return "[" + "; ".join(out) + "]"
 
 
 # ---- minimised past failures (always run first) -----------------------------------
